@@ -19,7 +19,8 @@ COQ_CHECK = "TcpSock.check_case"
 COQ_CASE_TYPE = "TcpSock.case"
 COQ_BRANCHES = ("TcpSock.case_branches", "TcpSock.n_branches")
 SHARD = 150
-RULE = ("event sequences over a plain or TLS tcp Server (reopen incl. failing bind / serviceAccepts / serviceAxes / "
+RULE = ("event sequences over a plain or TLS tcp Server (listen backlog bl 1, 2, 3 or the default 128; batches of 0-6 accepted "
+        "connections, so bursts exceed bl; reopen incl. failing bind / serviceAccepts / serviceAxes / "
         "serviceCxes / serviceConnects with batches of accepted connections from 4 peer addresses, each fine / "
         "malformed / already reset by the peer (getpeername raises ENOTCONN or ECONNABORTED), and with a TLS handshake script (WANT_READ / WANT_WRITE / ok / SSL EOF / other SSLError / OSError ECONNABORTED / ECONNRESET / ETIMEDOUT / EPIPE / non-OSError exception); receive outcomes "
         "data/eof/reset/unexpected error; removeIx / closeIx / close) and over a plain or TLS Client (open / reopen / "
@@ -275,6 +276,15 @@ def directed():
                                 ["cxes"], ["connects", [C(0, "gone"), C(3, "gone")]], ["close"]]},
         {"kind": "tls", "evs": [["reopen", False], ["accepts", [C(2, "gone")]], ["close"], ["reopen", False],
                                 ["connects", [C(2, "gone"), C(2, True), C(1, "gone")]], ["axes", []], ["close"]]},
+        # more accepted connections waiting than the listen backlog bl: a burst in one pass, and repeated
+        # serviceAccepts before serviceAxes; every one of them is serviced or closed (seeded change C11-11 witness)
+        {"kind": "server", "bl": 2, "evs": [["reopen", False], ["axes", [C(0), C(1), C(2)]], ["close"]]},
+        {"kind": "server", "bl": 1, "evs": [["reopen", False], ["accepts", [C(0)]], ["accepts", [C(1)]], ["accepts", [C(2), C(3)]],
+                                            ["close"]]},
+        {"kind": "tls", "bl": 2, "evs": [["reopen", False], ["accepts", [C(0, False, ["ok"]), C(1, False, ["want"])]],
+                                         ["connects", [C(2, False, ["ok"]), C(3, False, ["ok"])]], ["cxes"], ["close"]]},
+        {"kind": "tls", "bl": 3, "evs": [["reopen", False], ["accepts", [C(0), C(1)]], ["accepts", [C(2), C(3)]], ["reopen", False],
+                                         ["connects", [C(0, False, ["ok"]), C(1), C(2), C(3, False, ["ok"])]], ["close"]]},
         # malformed accepted socket and queued axes
         {"kind": "server", "evs": [["reopen", False], ["axes", [C(0), C(1, True), C(2)]], ["close"]]},
         {"kind": "server", "evs": [["reopen", False], ["accepts", [C(0), C(1)]], ["close"], ["reopen", False],
@@ -321,7 +331,7 @@ def directed():
 
 def _gen_conns(rng, tls):
     out = []
-    for _ in range(rng.choice([0, 1, 1, 1, 2, 2, 3])):
+    for _ in range(rng.choice([0, 1, 1, 1, 2, 2, 3, 3, 4, 6])):
         k = rng.randrange(rng.choice([2, NCA]))
         bad = rng.choices([False, True, "gone"], [0.84, 0.06, 0.10])[0]
         hs = []
@@ -357,7 +367,11 @@ def _gen_server(rng, tls):
         else:
             evs.append(["close"])
     evs.append(["close"])
-    return {"kind": "tls" if tls else "server", "evs": evs}
+    case = {"kind": "tls" if tls else "server", "evs": evs}
+    bl = rng.choice([0, 0, 1, 2, 3])
+    if bl:
+        case["bl"] = bl
+    return case
 
 
 def _gen_client(rng, tls):
@@ -414,10 +428,10 @@ def _run_server(case):
     tymist = tyming.Tymist(tyme=0.0, tock=1.0)
     results, opens, outside = [], [], []
     with patched(world):
-        if tls:
-            srv = serving.ServerTls(context=FakeContext(), ha=("127.0.0.1", world.port), tymth=tymist.tymen())
-        else:
-            srv = serving.Server(ha=("127.0.0.1", world.port), tymth=tymist.tymen())
+        kw = dict(ha=("127.0.0.1", world.port), tymth=tymist.tymen())
+        if case.get("bl"):
+            kw["bl"] = int(case["bl"])     # listen backlog: must not bound what the server keeps track of
+        srv = serving.ServerTls(context=FakeContext(), **kw) if tls else serving.Server(**kw)
 
         def enqueue(conns):
             if srv.ss is not None:
@@ -620,18 +634,22 @@ def to_coq(case, obs):
 def shrink(case):
     evs = case["evs"]
     for i in range(len(evs)):
-        yield {"kind": case["kind"], "evs": evs[:i] + evs[i + 1:]}
+        yield dict(case, evs=evs[:i] + evs[i + 1:])
     for i, ev in enumerate(evs):
         if ev[0] in ("axes", "accepts", "connects") and len(ev[1]) > 1:
             for j in range(len(ev[1])):
-                yield {"kind": case["kind"], "evs": evs[:i] + [[ev[0], ev[1][:j] + ev[1][j + 1:]]] + evs[i + 1:]}
+                yield dict(case, evs=evs[:i] + [[ev[0], ev[1][:j] + ev[1][j + 1:]]] + evs[i + 1:])
 
 
 def distribution(cases, obs):
     kinds = {}
     for c in cases:
         kinds[c["kind"]] = kinds.get(c["kind"], 0) + 1
-    return {"kinds": kinds}
+    over = 0
+    for c in cases:
+        if c.get("bl") and any(e[0] in ("axes", "accepts", "connects") and len(e[1]) > c["bl"] for e in c["evs"]):
+            over += 1
+    return {"kinds": kinds, "small_backlog": sum(1 for c in cases if c.get("bl")), "burst_larger_than_backlog": over}
 
 
 # --------------------------------------------------------------------------- real-kernel run (extra)
